@@ -93,3 +93,57 @@ def loop_anns(kind, havoc=None):
     ann = LoopAnn('frames', lambda v, j: True)
     ann.havoc = havoc
     return {(q, 0): ann}
+
+
+# --------------------------------------------------------------------------- concrete frames for the executable twins
+def _crc16(bs):
+    crc = 0xFFFF
+    for b in bs:
+        crc ^= b
+        for _ in range(8):
+            crc = (crc >> 1) ^ 0xA001 if crc & 1 else crc >> 1
+    return crc
+
+
+def concrete_frame(kind, uid, pdu, tid=0):
+    """the wire frame of (uid, pdu) in one framing, computed here from the specification (not with the framer under test)"""
+    body = [uid] + list(pdu)
+    if kind == 'socket':
+        return [tid >> 8, tid & 255, 0, 0, (len(pdu) + 1) >> 8, (len(pdu) + 1) & 255] + body
+    if kind == 'rtu':
+        c = _crc16(body)
+        return body + [c & 255, c >> 8]
+    if kind == 'ascii':
+        return list((':' + ''.join('%02X' % b for b in body + [(-sum(body)) % 256]) + '\r\n').encode())
+    c = _crc16(body)
+    return [0x7B] + body + [c & 255, c >> 8] + [0x7D]
+
+
+def gate_twin(kind):
+    """buffers made of one to three frames, each valid or damaged (a flipped byte, a cut, an inserted byte): the cases a gate must tell apart"""
+    def make(g):
+        r = g.r
+        n = r.choice([1, 2, 2, 3])
+        plen = r.choice([1, 2, 4, 5, 9])
+        buf = []
+        uid = r.randrange(0, 248)
+        for k in range(n):
+            pdu = [r.randrange(1, 100)] + [r.randrange(256) for _ in range(plen - 1)]
+            if kind == 'binary':
+                pdu = [b if b not in (0x7B, 0x7D) else 0x11 for b in pdu]
+            fr = concrete_frame(kind, uid if uid not in (0x7B, 0x7D) else 1, pdu, r.randrange(65536))
+            what = r.choice(['ok', 'ok', 'flip', 'flip', 'cut', 'insert'])
+            if what == 'flip':
+                i = r.randrange(len(fr))
+                fr[i] ^= 1 << r.randrange(8)
+            elif what == 'cut':
+                del fr[r.randrange(len(fr))]
+            elif what == 'insert':
+                fr.insert(r.randrange(len(fr) + 1), r.randrange(256))
+            buf += fr
+        out = {'buffer': {'items': buf}, 'unit0': uid, 'single': r.random() < 0.3}
+        if kind == 'rtu':
+            out['oracle_size'] = plen + 3
+            out['header_shape'] = 0
+        return out
+    return make
